@@ -156,13 +156,7 @@ func (d *Decoder) readDate(flag int32) (time.Time, error) {
 	return decodeDateValue(d.reader, flag)
 }
 
-func (d *Decoder) readStruct() (interface{}, error) {
-	tag, err := d.readTag()
-	if err != nil {
-		hlog.Debugf("reading tag err:%v", err)
-		return nil, tagReadError(err)
-	}
-
+func (d *Decoder) readStruct(tag byte) (interface{}, error) {
 	switch {
 	case tag == _endFlag:
 		return nil, io.EOF
